@@ -1,3 +1,4 @@
+use crate::builtin::cont_distributions::no_panic;
 use crate::builtin::core::{eval, xerr};
 use crate::native_types::{NativeType, XNativeValue};
 use crate::util::lazy_bigint::LazyBigint;
@@ -460,7 +461,10 @@ pub(crate) fn add_discdist_cdf<W, R, T>(
             let a1 = xraise!(eval(&args[1], ns, &rt)?);
             let d0 = to_native!(a0, XDiscreteDistribution);
             let i1 = to_primitive!(a1, Int);
-            let ret = xraise!(XValue::float(d0.cdf(i1), &rt)?);
+            let Some(ret) = no_panic(|| d0.cdf(i1)) else {
+                return xerr(ManagedXError::new("value out of bounds", rt)?);
+            };
+            let ret = xraise!(XValue::float(ret, &rt)?);
             Ok(ManagedXValue::new(ret, rt)?.into())
         }),
     )
@@ -477,7 +481,10 @@ pub(crate) fn add_discdist_pmf<W, R, T>(
             let a1 = xraise!(eval(&args[1], ns, &rt)?);
             let d0 = to_native!(a0, XDiscreteDistribution);
             let f1 = to_primitive!(a1, Int);
-            let ret = xraise!(XValue::float(d0.pmf(f1), &rt)?);
+            let Some(ret) = no_panic(|| d0.pmf(f1)) else {
+                return xerr(ManagedXError::new("value out of bounds", rt)?);
+            };
+            let ret = xraise!(XValue::float(ret, &rt)?);
             Ok(ManagedXValue::new(ret, rt)?.into())
         }),
     )
@@ -497,7 +504,7 @@ pub(crate) fn add_discdist_quantile<W, R, T>(
             if *f1 > 1.0 || *f1 < 0.0 {
                 return xerr(ManagedXError::new("quantile must be between 0 and 1", rt)?);
             }
-            let Some(ret) = d0.quantile(*f1) else {
+            let Some(ret) = no_panic(|| d0.quantile(*f1)).flatten() else {
                 return xerr(ManagedXError::new("value out of bounds", rt)?);
             };
             Ok(ManagedXValue::new(XValue::Int(ret), rt)?.into())
@@ -582,7 +589,9 @@ pub(crate) fn add_discdist_sample<W, R: SeedableRng + RngCore, T>(
             rt.limits
                 .check_permission(&builtin_permissions::RANDOM)?;
             rt.can_allocate(i1*size_of::<usize>())?;
-            let nums = d0.sample(i1, rt.stats.borrow_mut().get_rng());
+            let Some(nums) = no_panic(|| d0.sample(i1, rt.stats.borrow_mut().get_rng())) else {
+                return xerr(ManagedXError::new("value out of bounds", rt)?);
+            };
             let nums = nums.into_iter().map(|v| ManagedXValue::new(XValue::Int(v), rt.clone())).collect::<Result<Vec<_>, _>>()?;
             let ret = XSequence::array(nums);
             Ok(manage_native!(ret, rt))
